@@ -72,6 +72,17 @@ Theorem C06_ipv4_match_is_a_whole_token :
   (eol s j = true \/ exists x, nth_error s j = Some x /\ in_cset x Ipv4Token.ENC = true).
 Proof. exact Ipv4Token.ipv4_match_is_a_whole_token. Qed.
 
+(* the generated IPv6 pattern: every match starts at the line start or after a character that is neither an ASCII letter, a digit nor ':' (nor one of the
+   four characters that fold onto ASCII letters under IGNORECASE), and ends at the line end or before such a character -- never glued to further
+   hextets or colons.  (The twelve alternatives of its core are not characterised: which address forms they accept is decided by the scanner search;
+   known finding D1b lives there.) *)
+Theorem C06_ipv6_match_is_delimited :
+  forall (s : list chr) (i : nat) (c : caps) (j : nat) (c' : caps),
+  In (j, c') (ms s IPV6_RX i c) ->
+  (i = 0%nat \/ ((1 <= i)%nat /\ exists x, nth_error s (i - 1) = Some x /\ in_cset x cs9 = true)) /\
+  (eol s j = true \/ exists x, nth_error s j = Some x /\ in_cset x cs9 = true).
+Proof. exact Ipv4Token.ipv6_match_is_delimited. Qed.
+
 Theorem C06_dotted_quad_parts_are_numerals_up_to_255 :
   forall t : list chr, Ipv4Token.octet_core t -> (Ipv4Token.dec_value t <= 255)%N /\ Forall Ipv4Token.dig t.
 Proof. exact Ipv4Token.octet_core_value. Qed.
@@ -85,3 +96,4 @@ Print Assumptions C06_generated_ipv4_pattern_matches_only_standalone_dotted_quad
 Print Assumptions C06_ipv4_search_finds_only_standalone_dotted_quads.
 Print Assumptions C06_dotted_quad_parts_are_numerals_up_to_255.
 Print Assumptions C06_ipv4_match_is_a_whole_token.
+Print Assumptions C06_ipv6_match_is_delimited.
